@@ -797,6 +797,115 @@ def routine_level(ctx, harness, stats):
     return nontrivial, lines, impl, model
 
 
+
+# ====================================================================== A2. the codec contract on the real decompressors
+COMP_NAMES = {1: "gzip", 2: "lzma", 3: "lzo", 4: "xz", 5: "lz4", 6: "zstd"}
+
+
+class RealCodec:
+    """the compressors of the working tree behind the routine-level harness (persistent process, one line per block)"""
+    def __init__(self, ctx, exe):
+        self.p = subprocess.Popen([str(exe)], stdin=subprocess.PIPE, stdout=subprocess.PIPE, stderr=subprocess.DEVNULL, text=True,
+                                  env=ctx.san_env({"ASAN_OPTIONS": ASAN_OPTS}))
+
+    def ask(self, line):
+        self.p.stdin.write(line + "\n")
+        self.p.stdin.flush()
+        return self.p.stdout.readline().strip()
+
+    def compress(self, cid, bs, data):
+        a = self.ask("cpack %d %d %s" % (cid, bs, hx(data)))
+        return bytes.fromhex(a[3:]) if a.startswith("ok ") else None
+
+    def available(self, cid):
+        return self.ask("cpack %d 4096 00" % cid) != "nocomp"
+
+    def close(self):
+        try:
+            self.p.stdin.close()
+            self.p.wait(timeout=10)
+        except Exception:
+            self.p.kill()
+
+
+def codec_level(ctx, harness, stats):
+    """every compiled-in block decompressor on valid, truncated and edited streams with `outsize` below, at and above the
+    real size: the return value must be negative or <= outsize (the hypothesis of the theorems), no sanitizer report"""
+    rng = ctx.rng
+    rc = RealCodec(ctx, harness)
+    ids = [c for c in range(1, 7) if rc.available(c)]
+    stats["codecs"] = [COMP_NAMES[c] for c in ids]
+    payloads = [bytes(100), bytes(8192), b"ab" * 2000, bytes((i * 7 + i // 13) % 251 for i in range(5000)), b"x",
+                bytes(rng.randrange(4) for _ in range(3000))]
+    lines, meta = [], []          # meta: (comp id, outsize, expected size when the call must succeed or None)
+    nmut = 6 if ctx.quick() else 40
+    for cid in ids:
+        for pl in payloads:
+            bs = 8192 if len(pl) <= 8192 else 131072
+            blob = rc.compress(cid, bs, pl)
+            if blob is None:
+                continue
+            L = len(pl)
+            for outsize in sorted({0, 1, max(L - 1, 0), L, L + 1, 8192, 2 * L + 17}):
+                lines.append("cunpack %d %d %d %s" % (cid, bs, outsize, hx(blob)))
+                meta.append((cid, outsize, L if outsize >= L else None))
+            for _ in range(nmut):
+                b = bytearray(blob)
+                k = rng.random()
+                if k < 0.25:
+                    b = b[:rng.randrange(len(b))]
+                elif k < 0.6:
+                    for _ in range(rng.randint(1, 3)):
+                        b[rng.randrange(len(b))] ^= 1 << rng.randrange(8)
+                elif k < 0.8 and len(b) > 16:
+                    # size fields: LZMA-alone header bytes 5..12, zstd frame header, gzip/xz trailers
+                    at = pick(rng, [5, 6, 8, 4, len(b) - 4, len(b) - 8, 1, 2])
+                    b[at:at + 4] = struct.pack("<I", pick(rng, [0, 1, L - 1 if L else 0, L + 1, 8192, 8193, 0x7FFFFFFF, 0xFFFFFFFF]))
+                else:
+                    b += bytes(rng.randrange(256) for _ in range(rng.randint(1, 20)))
+                outsize = pick(rng, [0, 1, max(L - 1, 0), L, 8192, 100])
+                lines.append("cunpack %d %d %d %s" % (cid, bs, outsize, hx(b)))
+                meta.append((cid, outsize, None))
+        for _ in range(nmut):
+            junk = bytes(rng.randrange(256) for _ in range(pick(rng, [0, 1, 5, 13, 14, 64, 300])))
+            outsize = pick(rng, [0, 1, 100, 8192])
+            lines.append("cunpack %d %d %d %s" % (cid, 8192, outsize, hx(junk)))
+            meta.append((cid, outsize, None))
+    rc.close()
+    out = run_harness(ctx, harness, lines)
+    mon, monidx = [], []
+    hist = {}
+    for i, (l, o) in enumerate(zip(lines, out)):
+        cid, outsize, want = meta[i]
+        stats["codec_calls"] = stats.get("codec_calls", 0) + 1
+        if isinstance(o, tuple):
+            ctx.violation("codec-crash:%s:%s" % (COMP_NAMES[cid], vlib.sha(l)[:8]),
+                          "the %s decompressor of the tree aborted (rc=%s, %s) on a block with outsize=%d" % (COMP_NAMES[cid], o[1], crash_site(o[2] or ""), outsize),
+                          {"kind": "routine", "lines": [l], "rc": o[1], "stderr": (o[2] or "")[-1500:]})
+            continue
+        cls = (o or "none").split()[0]
+        hist[COMP_NAMES[cid] + ":" + cls] = hist.get(COMP_NAMES[cid] + ":" + cls, 0) + 1
+        if o and o.startswith("ret "):
+            mon.append("codecret %d %s" % (outsize, o.split()[1]))
+            monidx.append(i)
+            if want is not None and int(o.split()[1]) != want:
+                ctx.violation("codec-roundtrip:%s:%s" % (COMP_NAMES[cid], vlib.sha(l)[:8]),
+                              "the %s decompressor returns %s for a block its own compressor made from %d bytes (outsize %d)" % (COMP_NAMES[cid], o, want, outsize),
+                              {"kind": "routine", "lines": [l]}, found_input=False)
+            elif want is not None:
+                stats["codec_roundtrips"] = stats.get("codec_roundtrips", 0) + 1
+    verdicts = ctx.driver(["c05"], "\n".join(mon) + "\n") if mon else []
+    assert len(verdicts) == len(mon), "model driver answered %d of %d lines" % (len(verdicts), len(mon))
+    for v, i in zip(verdicts, monidx):
+        if v != "ok":
+            cid, outsize, _ = meta[i]
+            ctx.violation("codec-contract:%s:%s" % (COMP_NAMES[cid], vlib.sha(lines[i])[:8]),
+                          "the %s decompressor reports %s for outsize=%d: more bytes than the buffer holds (the contract every theorem about a caller of do_block assumes)"
+                          % (COMP_NAMES[cid], out[i], outsize), {"kind": "routine", "lines": [lines[i]], "impl": out[i]})
+    stats["codec_hist"] = hist
+    return ids
+
+
 # ====================================================================== B. walk level
 def gen_graph(rng):
     """random directory graph: edges (negative = file), inode numbers, basic/extended inode per directory and file"""
@@ -897,6 +1006,7 @@ def walk_level(ctx, tools, stats):
     text = "\n".join("walkl %d %s" % (limit, s[0]) for s in specs) + "\n"
     model = ctx.driver(["c05"], text)
     current = ctx.driver(["c05", "current"], text)
+    assert len(model) == len(specs) == len(current), "model driver answered %d/%d of %d walk lines" % (len(model), len(current), len(specs))
     pat = r"tree (ok \d+|err \S+|diverges) tar (ok \d+|err \S+|diverges)"
 
     def known(key, what, rp):
@@ -1073,8 +1183,8 @@ def mutate_bytes(rng, img):
     return bytes(b), desc
 
 
-def real_images(ctx, gen, n):
-    """valid images from the working tree's gensquashfs (gzip, compressed metadata)"""
+def real_images(ctx, gen, n, comps):
+    """valid images from the working tree's gensquashfs, one compressor after the other (compressed metadata)"""
     out = []
     d = ctx.scratch / "realsrc"
     for k in range(n):
@@ -1082,6 +1192,10 @@ def real_images(ctx, gen, n):
             shutil.rmtree(d)
         (d / "a" / "b").mkdir(parents=True)
         (d / "a" / "small.txt").write_bytes(b"hello\n" * ctx.rng.randint(1, 50))
+        try:
+            os.setxattr(d / "a" / "small.txt", "user.c05", b"value" * 30)
+        except OSError:
+            pass
         (d / "a" / "b" / "big.bin").write_bytes(bytes(ctx.rng.randrange(256) for _ in range(ctx.rng.choice([5000, 9000, 20000]))))
         (d / "a" / "zero").write_bytes(bytes(12288))
         (d / "empty").write_bytes(b"")
@@ -1089,9 +1203,12 @@ def real_images(ctx, gen, n):
         for i in range(ctx.rng.randint(0, 30)):
             (d / "a" / ("f%02d" % i)).write_bytes(b"%d" % i)
         img = ctx.scratch / ("real%d.sqfs" % k)
-        r = vlib.sh([str(gen), "-D", str(d), "-b", str(ctx.rng.choice([4096, 8192])), "-q", "-f", str(img)], env=ctx.san_env())
+        r = vlib.sh([str(gen), "-D", str(d), "-b", str(ctx.rng.choice([4096, 8192])), "-c", comps[k % len(comps)], "-x", "-q", "-f", str(img)],
+                    env=ctx.san_env())
         if r.returncode == 0:
             out.append(img.read_bytes())
+        else:
+            ctx.log("gensquashfs -c %s failed: %s" % (comps[k % len(comps)], r.stderr[-200:]))
     return out
 
 
@@ -1107,7 +1224,11 @@ def tool_jobs(tools, api, p, p2, scratch_dir, rng_seed):
         ("rdsquashfs -x", [str(t["rdsquashfs"]), "-x", "/f2", str(p)]),
         ("rdsquashfs -x2", [str(t["rdsquashfs"]), "-x", "/sub/deep", str(p)]),
         ("rdsquashfs -u", [str(t["rdsquashfs"]), "-u", "/", "-p", str(scratch_dir), "-q", str(p)]),
+        ("rdsquashfs -uXCOT", [str(t["rdsquashfs"]), "-u", "/", "-p", str(scratch_dir) + "2", "-X", "-C", "-O", "-T", "-q", str(p)]),
         ("sqfs2tar", [str(t["sqfs2tar"]), str(p)]),
+        ("sqfs2tar -d", [str(t["sqfs2tar"]), "-d", "sub", "-X", str(p)]),
+        ("sqfs2tar -dk", [str(t["sqfs2tar"]), "-d", "sub/deep", "-k", str(p)]),
+        ("sqfs2tar -r", [str(t["sqfs2tar"]), "-r", "newroot", "-d", "a", "-d", "sub", str(p)]),
         ("sqfsdiff", [str(t["sqfsdiff"]), "-a", str(p2), "-b", str(p)]),
         ("api", [str(api), str(p), str(rng_seed)]),
     ]
@@ -1117,6 +1238,12 @@ def classify_tool_failure(name, r, img):
     """returns (known key or None, description)"""
     rc, err = r["rc"], r["err"]
     site = crash_site(err)
+    if name == "api" and rc == 0:
+        m = re.search(r"calls=(\d+) errors=\d+ entries=\d+ strbytes=\d+ stopped=(\w+)", r.get("out", "") or "")
+        if not m or int(m.group(1)) == 0:
+            return None, "the API driver ended without reporting any executed call (stdout %r)" % (r.get("out", "") or "")[-120:]
+    if name == "api" and rc == 3:
+        return None, "the API driver could not open the image file"
     if rc == 98 and err.count("runtime error:") == 1 and "which is declared to never be null" in err and " in fill_unpacked_files " in err:
         # qsort(NULL, 0, ...) when an image holds no regular file (also on valid empty images): undefined by the letter of
         # the standard, no access happens; reported in docs/design/C05.md, not a violation of C05
@@ -1158,7 +1285,7 @@ def classify_tool_failure(name, r, img):
     return "ok", ""
 
 
-def tool_level(ctx, tools, api, stats):
+def tool_level(ctx, tools, api, harness, stats):
     rng = ctx.rng
     quick = ctx.quick()
     env = ctx.san_env({"ASAN_OPTIONS": ASAN_OPTS})
@@ -1180,17 +1307,39 @@ def tool_level(ctx, tools, api, stats):
     if pt.exists():
         images.append(("repo:pathtraversal", pt.read_bytes(), []))
     bases = []
-    for k in range(3 if quick else 8):
-        fg = F.sample_tree(rng, rng.choice([4096, 8192]), compress_meta=(k % 3 == 2), compress_data=(k % 2 == 1), big=(k == 1))
+    comp_ids = stats.get("codec_ids") or [1]
+    codec = RealCodec(ctx, harness)
+    # base 0/1: uncompressed metadata (every field addressable by the mutator); the others: every compressor id the tree
+    # was built with, metadata and data compressed (block compressors written in the forge for gzip/xz/lzma, the real
+    # compressor behind the harness for lz4/zstd)
+    plan = [(1, False, False), (1, False, True)] + [(c, True, True) for c in comp_ids if c != 1] + [(1, True, True)]
+    if quick:
+        plan = plan[:2] + [plan[2 + ctx.seed % (len(plan) - 2)]] if len(plan) > 2 else plan
+    for k, (cid, cmeta, cdata) in enumerate(plan):
+        bs = rng.choice([4096, 8192])
+        real = (lambda d, cid=cid, bs=bs: codec.compress(cid, max(bs, 8192), d)) if F.py_codec(cid) is None else None
+        fg = F.sample_tree(rng, bs, compress_meta=cmeta, compress_data=cdata, big=(k == 1), comp_id=cid, codec=real)
         img = fg.build()
-        bases.append(("forge%d" % k, img, fg.fields))
-        images.append(("forge%d:valid" % k, img, []))
-    reals = real_images(ctx, tools["gensquashfs"], 2 if quick else 5)
+        lab = "forge%d-%s" % (k, COMP_NAMES[cid])
+        bases.append((lab, img, fg.fields))
+        images.append((lab + ":valid", img, []))
+        stats.setdefault("forge_compressors", []).append(COMP_NAMES[cid] + ("+meta" if cmeta else ""))
+    codec.close()
+    # inode mode fields whose file type bits contradict the inode type (the readers must derive the type from the inode type)
+    for kind, bits in (("lnk", 0o120000), ("dir", 0o040000), ("all", 0o170000)):
+        fg = F.sample_tree(__import__("random").Random(5), 4096)
+        img = bytearray(fg.build())
+        for off, w, name in fg.fields:
+            if name.endswith(".mode") and w == 2:
+                img[off:off + 2] = struct.pack("<H", (struct.unpack("<H", img[off:off + 2])[0] & 0o7777) | bits)
+        images.append(("probe:mode-%s" % kind, bytes(img), ["mode-type-bits"]))
+    comps = [COMP_NAMES[c] for c in comp_ids]
+    reals = real_images(ctx, tools["gensquashfs"], max(2, len(comps)) if quick else 2 * len(comps), comps)
     for k, img in enumerate(reals):
         images.append(("real%d:valid" % k, img, []))
     nvalid = len(images)
-    n_field = 140 if quick else 3000
-    n_byte = 60 if quick else 1500
+    n_field = 110 if quick else 3000
+    n_byte = 50 if quick else 1500
     for k in range(n_field):
         lab, img, fields = bases[k % len(bases)]
         m, desc = mutate_field(rng, img, fields, 1 if rng.random() < 0.8 else rng.randint(2, 3))
@@ -1232,12 +1381,18 @@ def tool_level(ctx, tools, api, stats):
                 jobs = [j for j in jobs if j[0] in ("rdsquashfs -d", "sqfs2tar")]
             elif lab.startswith("t1_"):
                 jobs = [j for j in jobs if j[0] == "rdsquashfs -d"]
+            if quick and idx >= nvalid and idx % 3 != 0:
+                # the option variants of unpack / sqfs2tar: every valid image, a third of the mutated ones
+                jobs = [j for j in jobs if j[0] not in ("rdsquashfs -uXCOT", "sqfs2tar -d", "sqfs2tar -dk", "sqfs2tar -r")]
             for name, cmd in jobs:
-                if name == "sqfs2tar":
+                if name.startswith("sqfs2tar"):
                     r = run_tool(ctx, cmd, env, timeout, tar_count=True)
                 else:
                     r = run_tool(ctx, cmd, env, timeout, cwd=str(wd))
-                r.pop("out", None)
+                if name == "api":
+                    r["out"] = r.get("out", "")[-300:]
+                else:
+                    r.pop("out", None)
                 out.append((name, cmd, r))
         finally:
             shutil.rmtree(wd, ignore_errors=True)
@@ -1258,10 +1413,19 @@ def tool_level(ctx, tools, api, stats):
                 p = ctx.scratch / "confirm.sqfs"
                 p.write_bytes(img)
                 cmd2 = [str(p) if a.endswith("/i.sqfs") else a for a in cmd]
-                r = run_tool(ctx, cmd2, env, 4 * timeout, tar_count=(name == "sqfs2tar"))
-                r.pop("out", None)
+                r = run_tool(ctx, cmd2, env, 4 * timeout, tar_count=name.startswith("sqfs2tar"))
+                if name != "api":
+                    r.pop("out", None)
                 stats["timeouts_rechecked"] = stats.get("timeouts_rechecked", 0) + 1
                 key, what = classify_tool_failure(name, r, img)
+            if name == "api":
+                m = re.search(r"calls=(\d+) errors=(\d+) entries=(\d+)", r.get("out", "") or "")
+                if m:
+                    stats["api_calls"] = stats.get("api_calls", 0) + int(m.group(1))
+                    stats["api_errors_returned"] = stats.get("api_errors_returned", 0) + int(m.group(2))
+                    if idx < nvalid and lab.endswith(":valid") and int(m.group(3)) < 10:
+                        ctx.violation("valid-rejected:%s:api" % lab, "the API driver visits %s entries of a valid image (%s)" % (m.group(3), r["out"][-100:]),
+                                      {"kind": "image", "image_b64": base64.b64encode(img).decode(), "cmd": ["h_c05_api"]}, found_input=False)
             cls = "exit0" if r["rc"] == 0 else ("error-exit" if key == "ok" else ("known" if key else "FAIL"))
             hist[name + ":" + cls] = hist.get(name + ":" + cls, 0) + 1
             if key == "ok":
@@ -1310,12 +1474,14 @@ def run(ctx):
              "walk_images": 0, "tool_runs": 0, "known_tool": {}, "known_walk": {}}
     t0 = time.time()
     nontrivial, lines, impl, model = routine_level(ctx, harness, stats)
+    stats["codec_ids"] = codec_level(ctx, harness, stats)
     t1 = time.time()
-    ctx.log("routine level: %d lines, %d crashes, %d disagreements (%.1fs)" % (stats["lines"], stats["crashes"], stats["disagreements"], t1 - t0))
+    ctx.log("routine level: %d lines, %d crashes, %d disagreements; %d decompressor calls on %s (%.1fs)" % (
+        stats["lines"], stats["crashes"], stats["disagreements"], stats.get("codec_calls", 0), ",".join(stats.get("codecs", [])), t1 - t0))
     walk_level(ctx, tools, stats)
     t2 = time.time()
     ctx.log("walk level: %d graphs (%.1fs)" % (stats["walk_images"], t2 - t1))
-    tool_level(ctx, tools, api, stats)
+    tool_level(ctx, tools, api, harness, stats)
     t3 = time.time()
     ctx.log("tool level: %d images, %d runs (%.1fs)" % (stats["tool_images"], stats["tool_runs"], t3 - t2))
     samples = []
@@ -1339,6 +1505,9 @@ def run(ctx):
         "nesting_limit_of_tree": stats.get("nesting_limit_of_tree"), "known_walk_differences": stats["known_walk"],
         "tool_images": stats["tool_images"], "tool_images_valid": stats["tool_images_valid"], "tool_runs": stats["tool_runs"],
         "tool_outcomes": stats.get("tool_hist"), "known_tool_failures": stats["known_tool"],
+        "decompressor_calls": stats.get("codec_calls", 0), "decompressors": stats.get("codecs"), "decompressor_outcomes": stats.get("codec_hist"),
+        "decompressor_roundtrips": stats.get("codec_roundtrips", 0), "forge_compressors": stats.get("forge_compressors"),
+        "api_calls_executed": stats.get("api_calls", 0), "api_errors_returned": stats.get("api_errors_returned", 0),
         "inputs_per_sec": round((stats["lines"] + stats["tool_runs"]) / max(t3 - t0, 0.01), 1),
         "wall": {"routine_s": round(t1 - t0, 1), "walk_s": round(t2 - t1, 1), "tool_s": round(t3 - t2, 1)},
         "samples": samples, "disagreements_checked": stats["disagreements"] + stats["crashes"],
